@@ -884,13 +884,29 @@ def arity_of(op, abc_):
     return 2
 
 
+def docstring_spellings(stmts):
+    """Spellings quoted as `'…'` / `r'…'` inside backticks in the method's docstring (data only)."""
+    if not (stmts and isinstance(stmts[0], ast.Expr) and isinstance(stmts[0].value, ast.Constant)
+            and isinstance(stmts[0].value.value, str)):
+        return []
+    out = []
+    for m in re.finditer(r"`(r?'(?:[^'\\]|\\.)*')`", stmts[0].value.value):
+        try:
+            v = ast.literal_eval(m.group(1))
+        except Exception:  # noqa: BLE001
+            continue
+        if isinstance(v, str) and v not in out:
+            out.append(v)
+    return out
+
+
 def apply_table(repo, mod):
     """Rows `(alias, outcome, line)` of one back end's `apply`."""
     abc_, utils = _abc_vocab(repo)
     allops = sorted(abc_.BDD_OPERATOR_SYMBOLS)
     f = next((f for f in mod['funcs'] if f.qual == mod['cls'] + '.apply'), None)
     res = dict(tag=mod['tag'], file='dd/' + mod['file'], line=0, rows=[], declared=[],
-               via_abc=False, guards=[])
+               documented=[], via_abc=False, guards=[])
     if f is None:
         res['rows'] = [(op, ('unknown', 'no method apply', 0)) for op in allops]
         return res
@@ -935,6 +951,7 @@ def apply_table(repo, mod):
                 guards.append(g)
         res['rows'].append((op, out))
     res['declared'] = declared
+    res['documented'] = docstring_spellings(stmts)
     res['via_abc'] = via_abc
     res['guards'] = guards
     return res
